@@ -10,6 +10,9 @@ template <class T> static void run_T(Choice &c, Ctx &cx)
     const bool cplx = Tr<T>::is_complex, single = sizeof(R) == 4;
     int n = gen_size(c, cx.tier);
     unsigned pk = c.below(8);
+    // larger orders for a part of the cases: MC64's heap (removal from the middle, several augmenting passes) only gets
+    // deep enough from about order 10 with fairly full columns
+    if (c.chance(28)) n = 24 + (int)c.below(cx.tier > 0 ? 70u : 40u);
     PatMode pm = pk <= 4 ? PAT_NONSING : (pk <= 6 ? PAT_ANY : PAT_SINGULAR);
     std::string family;
     auto pat = gen_pattern(c, n, n, pm, family);
